@@ -13,6 +13,7 @@ no handler call, no reply.
 import vlib
 from checks import framing_common as fc
 
+WRITE_REQUIRES = ['Base.Show', 'Base.Frame', 'Gen.WritePath', 'Model.WritePath', 'Model.WriteEval']
 CLASSES = ['1bit', '2bit', 'burst', 'crc_swapped', 'crc_lo_only', 'crc_hi_only', 'crc_no_addr', 'payload_byte']
 
 
@@ -217,12 +218,11 @@ def run_client(ctx, cases):
     line = lambda conns: ' / '.join(' '.join([fin] + [c.hex() for c in chunks]) for chunks, fin in conns)
     coq = lambda conns: '[' + ';'.join('([%s], %s)' % (';'.join(vlib.coq_N_list(c) for c in chunks), fc.FIN[fin]) for chunks, fin in conns) + ']'
     impl = ctx.harness('client_conns', [line(c) for c in cases], args=['--rtu'], shards=8)
-    both = ctx.coq_eval(fc.REQUIRES, 'eval_client_rtu', [coq(c) for c in cases], case_type='list (list (list N) * fin)', per_shard=100)
+    both = fc.coq_pairs(ctx, 'client_rtu', [coq(c) for c in cases], 'list (list (list N) * fin)')
     bad = 0
-    for c, i, b in zip(cases, impl, both):
-        model, _, spec = b.partition('|')
+    for c, i, (model, spec) in zip(cases, impl, both):
         want = expected_client_results(spec)
-        if i != want or expected_client_results(model) != want:
+        if i != want or (model is not None and expected_client_results(model) != want):
             bad += 1
             if bad == 1:
                 ctx.violation('rtu-client.connection-results-differ-from-spec',
@@ -337,8 +337,12 @@ def run_write(ctx, cases):
     out = ctx.harness('reply_write', [line(c, c[1], c[2]) for c in cases] + [line(c, '-', 0) for c in cases], shards=8)
     scripted, ref = out[:len(cases)], out[len(cases):]
     evs = lambda c: '[' + ';'.join('Take %s' % t[1:] if t[0] == 'a' else ';'.join(['Cmd CChangeDecoding'] * c[2]) for t in c[1].split(',') if t[0] == 'a' or c[2] > 0) + ']'
-    model = ctx.coq_eval(fc.REQUIRES + ['Gen.WritePath', 'Model.WritePath'], 'eval_write_reply', ['(%s, %s, %s)' % (vlib.coq_bool(c[0].startswith('client')), vlib.coq_N_list(bytes.fromhex(rf.split(' ')[0] if rf[0] != '-' else '')), evs(c)) for c, rf in zip(cases, ref)],
-                         case_type='bool * list N * list wevent', per_shard=100)
+    if fc.MODE['write']:
+        model = ctx.coq_eval(WRITE_REQUIRES, 'eval_write_reply', ['(%s, %s, %s)' % (vlib.coq_bool(c[0].startswith('client')), vlib.coq_N_list(bytes.fromhex(rf.split(' ')[0] if rf[0] != '-' else '')), evs(c)) for c, rf in zip(cases, ref)],
+                             case_type='bool * list N * list wevent', per_shard=100)
+    else:
+        # no write-path model: the Spec alone - the one serialisation of the frame is the reference emission (its CRC is checked below)
+        model = ['\x00|' + (rf.split(' ')[0] if rf[0] != '-' else '') for rf in ref]
     bad, rtu_refs, rtu_src = 0, [], []
     for c, s_, rf, m in zip(cases, scripted, ref, model):
         emitted, once = s_.split(' ')[0], rf.split(' ')[0]
@@ -352,8 +356,8 @@ def run_write(ctx, cases):
                 ctx.violation(f'{c[0]}.emitted-bytes-are-not-one-serialisation-of-the-frame',
                               f'`reply_write: {line(c, c[1], c[2])}`: the transport received {emitted[:120]} although the frame is {spec[:80]} '
                               '(a congested transmit path with commands arriving while the write is parked: fragment re-sent / bytes lost?)',
-                              {'cases': [{'write': list(c)}], 'impl': s_, 'spec': spec, 'model': mout, 'harness_line': 'reply_write: ' + line(c, c[1], c[2])})
-        elif mout.split(':')[0] != emitted:
+                              {'cases': [{'write': list(c)}], 'impl': s_, 'spec': spec, 'model': mout.replace('\x00', 'not available (Spec-only fallback)'), 'harness_line': 'reply_write: ' + line(c, c[1], c[2])})
+        elif mout != '\x00' and mout.split(':')[0] != emitted:
             bad += 1
             ctx.violation(f'{c[0]}.write-model-differs-from-impl', f'{line(c, c[1], c[2])}: impl {emitted[:80]} model {mout[:80]}',
                           {'cases': [{'write': list(c)}], 'impl': s_, 'model': mout, 'spec': spec}, no_failing_input=True)
@@ -379,9 +383,12 @@ def run_client_timeout(ctx, cases):
     out = ctx.harness('reply_write', [f'{role} {script} 1' for role, script in cases] + [f'{role} - 0' for role, script in cases], shards=8)
     scripted, ref = out[:len(cases)], out[len(cases):]
     evs = lambda script: '[' + ';'.join('CTake %s' % t[1:] if t[0] == 'a' else 'CTimeout' for t in script.split(',') if t != 'b') + ']'
-    model = ctx.coq_eval(fc.REQUIRES + ['Gen.WritePath', 'Model.WritePath'], 'eval_client_write',
-                         ['(%s, %s)' % (vlib.coq_N_list(bytes.fromhex(rf.split(' ')[0])), evs(script)) for (role, script), rf in zip(cases, ref)],
-                         case_type='list N * list cevent', per_shard=100)
+    if fc.MODE['write']:
+        model = ctx.coq_eval(WRITE_REQUIRES, 'eval_client_write',
+                             ['(%s, %s)' % (vlib.coq_N_list(bytes.fromhex(rf.split(' ')[0])), evs(script)) for (role, script), rf in zip(cases, ref)],
+                             case_type='list N * list cevent', per_shard=100)
+    else:
+        model = ['\x00|' + rf.split(' ')[0] for rf in ref]
     bad = 0
     for (role, script), s_, rf, m in zip(cases, scripted, ref, model):
         f = dict(kv.split('=', 1) for kv in s_.split(' ')[1:]) if ' ' in s_ else {}
@@ -399,8 +406,8 @@ def run_client_timeout(ctx, cases):
                 ctx.violation(f'{role}.request-write-not-bounded-or-not-a-prefix',
                               f'`reply_write: {role} {script} 1`: the transport took {emitted or "-"} of the request {frame} and never more; 3 s later: {s_[:160]} '
                               f'(prescribed: exactly the prefix {want or "-"} on the wire, the request fails with Io(TimedOut) when its 1 s timeout elapses and the session ends)',
-                              {'cases': [{'client_timeout': [role, script]}], 'impl': s_, 'spec': want + ':Io(TimedOut)', 'model': mout, 'harness_line': f'reply_write: {role} {script} 1'})
-        elif not complete and mout != emitted + ':Io(TimedOut)':
+                              {'cases': [{'client_timeout': [role, script]}], 'impl': s_, 'spec': want + ':Io(TimedOut)', 'model': mout.replace('\x00', 'not available (Spec-only fallback)'), 'harness_line': f'reply_write: {role} {script} 1'})
+        elif not complete and mout != '\x00' and mout != emitted + ':Io(TimedOut)':
             bad += 1
             ctx.violation(f'{role}.client-write-model-differs-from-impl', f'{role} {script}: impl {s_[:80]} model {mout[:80]}',
                           {'cases': [{'client_timeout': [role, script]}], 'impl': s_, 'model': mout}, no_failing_input=True)
@@ -435,13 +442,12 @@ def check_emitted(ctx, what, frames, sources, replay_cases=None):
     """every emitted frame = rtu_format of its own destination and PDU = the Spec's rtu_frame_of, and <= 256 bytes"""
     frames = [bytes.fromhex(f) for f in frames]
     ok_shape = [len(f) >= 4 for f in frames]
-    coq = ctx.coq_eval(fc.REQUIRES, 'eval_emit', ['(%d, %s)' % (f[0], vlib.coq_N_list(f[1:-2])) for f in frames if len(f) >= 4],
-                       case_type='N * list N', per_shard=100)
+    coq = fc.coq_pairs(ctx, 'emit', ['(%d, %s)' % (f[0], vlib.coq_N_list(f[1:-2])) for f in frames if len(f) >= 4], 'N * list N')
     it = iter(coq)
     bad = 0
     replay_cases = replay_cases or [{'emit': what, 'line': src} for src in sources]
     for f, src, okf, rc in zip(frames, sources, ok_shape, replay_cases):
-        model, _, spec = (next(it).partition('|') if okf else ('', '', ''))
+        model, spec = (next(it) if okf else ('', ''))
         third = fc.rtu_frame(f[0], f[1:-2]).hex().upper() if okf else ''
         got = f.hex().upper()
         if not okf or got != spec or len(f) > 256 or got != third:
@@ -450,7 +456,7 @@ def check_emitted(ctx, what, frames, sources, replay_cases=None):
                 ctx.violation(f'{what}.emitted-frame-not-crc-of-address-and-pdu',
                               f'{what} emitted {got[:80]}.. ({len(f)} bytes) for `{src[:80]}`; the Spec frame for that address and PDU is {spec[:80]}..',
                               {'cases': [rc], 'impl': got, 'spec': spec, 'model': model})
-        elif got != model:
+        elif model is not None and got != model:
             bad += 1
             ctx.violation(f'{what}.model-differs-from-impl', f'{src[:80]}: emitted {got[:60]} model {model[:60]}',
                           {'cases': [rc], 'impl': got, 'model': model, 'spec': spec}, no_failing_input=True)
@@ -460,11 +466,21 @@ def check_emitted(ctx, what, frames, sources, replay_cases=None):
 def run(ctx):
     ctx.translate(['Consts.v', 'RtuLengths.v', 'ParserShape.v', 'WritePath.v'])
     models_ok = ctx.build_models(['Base.Show', 'Base.Frame', 'Model.Reader', 'Spec.Framing', 'Model.FramingEval'])
+    write_ok = ctx.build_models(['Model.WriteEval'])
     ctx.prove()
     if ctx.tier == 'thorough':
         ctx.coqchk()
-    if not ctx.build_harness() or not models_ok:
+    if not ctx.build_harness():
         return
+    fc.MODE['models'], fc.MODE['write'] = models_ok, write_ok
+    if not models_ok:
+        # a Gen table could not be regenerated / a model file does not compile: the implementation is still judged
+        # against the Spec alone (Spec/SpecEval.v imports no Gen file and no model), so a violation keeps its replay
+        if not ctx.build_models(['Spec.SpecEval']):
+            return
+        ctx.notes.append('reader model not evaluable: correspondence families judged against the Spec only')
+    if not write_ok:
+        ctx.notes.append('write-path model not evaluable (Gen/WritePath.v): transmit families judged against the Spec only')
     emit_lines = server_cases = client_cases = reopen_cases = write_cases = pty_rounds = timeout_cases = None
     if ctx.replay and 'cases' in ctx.replay:
         cs = ctx.replay['cases']
